@@ -12,8 +12,11 @@ mod tlv {
 }
 #[path = "/repo/src/messages.rs"]
 mod messages;
-#[path = "/repo/src/block_watcher.rs"]
-mod block_watcher;
+mod block_watcher {
+    include!("/repo/src/block_watcher.rs");
+    // harness accessor for the private height mutex (used to create lock contention deterministically)
+    pub fn probe_height_lock(bw: &BlockWatcher) -> Arc<Mutex<u32>> { bw.current_height.clone() }
+}
 #[path = "/repo/src/email.rs"]
 mod email;
 #[path = "/repo/src/payment_provider.rs"]
